@@ -312,4 +312,50 @@ def runTwo (env : Env) (st : State) (a b : Req) : Sched → TwoResult
     let ra := handle env rb.state a
     ⟨ra, rb, ra.state⟩
 
+/-! ### What the proxy is told to manage
+
+`config/update_endpoints.go` / `config/policies_accessor.go`: every engine switch of `initializeStreams`
+sends a manage request for the endpoints of the new engine (`updateHAProxyEndpoints`: the request serial is
+bumped and recorded for every endpoint named) and, when there was a previous engine, schedules the
+un-manage of the endpoints the new engine no longer has (`ScheduleUnmanageHAProxyEndpoints`: the serial is
+read WHEN THE UN-MANAGE IS SCHEDULED; `staleVersionTTL` = 30 s later `unmanageStaleHAProxyEndpoints` spares
+every endpoint that a newer request registered again). An endpoint is identified by the configuration
+file it comes from. -/
+
+structure Registry where
+  managed : List Path                 -- what HAProxy hands to the engine
+  ser : List (Path × Nat)             -- `haproxyManagedSerial` (first binding wins)
+  serial : Nat                        -- `haproxyRequestSerial`
+  pending : List (List Path × Nat)    -- scheduled un-manages: endpoints, serial at scheduling time
+
+def Registry.empty : Registry := ⟨[], [], 0, []⟩
+
+def Registry.serOf (r : Registry) (e : Path) : Nat :=
+  match r.ser.find? (fun x => decide (x.1 = e)) with
+  | some x => x.2
+  | none => 0
+
+/-- `ManageHAProxyEndpoints` (all admin calls succeeding). -/
+def Registry.manage (r : Registry) (eps : List Path) : Registry :=
+  { r with serial := r.serial + 1,
+           ser := eps.map (fun e => (e, r.serial + 1)) ++ r.ser,
+           managed := eps ++ r.managed.filter (fun e => !eps.contains e) }
+
+/-- `ScheduleUnmanageHAProxyEndpoints(EndpointsToUnmanage(prev, new))`. -/
+def Registry.schedule (r : Registry) (prev new : List Path) : Registry :=
+  let rm := prev.filter (fun e => !new.contains e)
+  if rm.isEmpty then r else { r with pending := r.pending ++ [(rm, r.serial)] }
+
+/-- One delayed un-manage firing. -/
+def Registry.fire (r : Registry) (job : List Path × Nat) : Registry :=
+  { r with managed := r.managed.filter (fun e => !(job.1.contains e && decide (r.serOf e ≤ job.2))) }
+
+/-- The un-manage delay elapses: every scheduled job fires. -/
+def Registry.tick (r : Registry) : Registry :=
+  { (r.pending.foldl Registry.fire r) with pending := [] }
+
+/-- One engine switch: manage the new endpoints, schedule the un-manage of the dropped ones. -/
+def Registry.switch (r : Registry) (prev new : List Path) : Registry :=
+  (r.manage new).schedule prev new
+
 end LunarVerif.C08
